@@ -102,7 +102,7 @@ def _strategies():
         if target in ("c", "cpp"):
             if maybe(20):
                 o["override_cap"] = True
-            if maybe(15):
+            if maybe(35):
                 o["config"] = True  # a --configuration YAML that lives in the input tree location
         if target == "cpp" and maybe(70):
             o["std"] = draw(st.sampled_from(["c++14", "c++17", "c++20", "c++17-pmr", "cetl++14-17"]))
@@ -301,7 +301,12 @@ def spell(path: pathlib.Path, cwd: pathlib.Path, how: str) -> str:
     return rel
 
 
-CONFIG_YAML = "nunavut.lang.{lang}:\n  options:\n    target_endianness: big\n"
+# overrides an existing option AND adds several options / named types that the built-in configuration does not have (templates
+# iterate `options` into every header: the order of newly merged keys must not depend on the hash seed)
+CONFIG_YAML = (
+    "nunavut.lang.{lang}:\n  options:\n    target_endianness: big\n    vendor_alpha: 1\n    vendor_beta: two\n    zz_gamma: true\n"
+    "    aa_delta: 4\n    m_epsilon: x\n    vendor_zeta: 0\n  named_types:\n    vf_extra_one: int\n    vf_extra_two: long\n"
+)
 
 
 def build_argv(u: dict, root: int, target: str, opts: dict, e: dict, lay: Layout, outdir: typing.Optional[pathlib.Path] = None) -> typing.List[str]:
